@@ -105,6 +105,10 @@ def run(payload):
         r["split_sizes"] = [[int(x) for x in s] for s in pc._partitioner.split_sizes()]
         shapes = [[int(x) for x in s] for s in pc.shapes_for_preconditioners()]
         r["shapes"] = shapes
+        # a blocked parameter never announces a preconditioner larger than the block size
+        if b > 0 and any(s[0] > b for s in shapes):
+          fail("announced preconditioner %s is larger than block_size %d" % (
+              [s for s in shapes if s[0] > b][0], b))
         r["exponent"] = int(pc.exponent_for_preconditioner())
         spd = [bool(x) for x in pc.should_precondition_dims()]
         r["should"] = spd
